@@ -32,6 +32,12 @@ func phaseOf(info *types.Info, e ast.Expr) string {
 	if !ok || sel.Sel.Name != "All" {
 		return ""
 	}
+	return phaseOfVars(info, sel.X)
+}
+
+// phaseOfVars names the phase by the variable set itself (the field it is read from).
+func phaseOfVars(info *types.Info, x ast.Expr) string {
+	sel := struct{ X ast.Expr }{x}
 	switch {
 	case fieldSel(info, sel.X, PkgTask, "Compiler", "TaskfileEnv"):
 		return "3-taskfile-env"
@@ -60,6 +66,7 @@ func c10WriteOrder(c *Check, a *Anchors) {
 		pos  ast.Node
 	}
 	var phases []ph
+	helperPhases := map[ast.Node]bool{}
 	// phase 1: result := env.GetEnviron()
 	var result *types.Var
 	inspectBody(fb.Body, func(nd ast.Node) bool {
@@ -69,6 +76,16 @@ func c10WriteOrder(c *Check, a *Anchors) {
 				if call, ok := ast.Unparen(x.Rhs[0]).(*ast.CallExpr); ok && isFunc(callee(info, call), PkgEnv, "", "GetEnviron") {
 					phases = append(phases, ph{"1-process-environment", x})
 					result = varOf(info, x.Lhs[0])
+				}
+			}
+		case *ast.CallExpr:
+			// a phase applied through a ranging helper of the package: rangeVars(<phase's variables>, <range function>)
+			if fn, ok := callee(info, x).(*types.Func); ok && len(x.Args) >= 2 {
+				if h := c.P.DeclOf(fn); h != nil && h.Pkg == fb.Pkg && h != fb {
+					if p := phaseOfVars(info, x.Args[0]); p != "" && rangingHelper(c, h) {
+						phases = append(phases, ph{p, x})
+						helperPhases[x] = true
+					}
 				}
 			}
 		case *ast.RangeStmt:
@@ -96,6 +113,10 @@ func c10WriteOrder(c *Check, a *Anchors) {
 	}
 	// every phase loop hands each (k, v) to a range function unconditionally and returns its error
 	for _, p := range phases {
+		if helperPhases[p.pos] {
+			c.OK("vars-write-order", "phase-feeds-range-func "+p.name+"@"+name, p.pos.Pos(), "applied through a helper that hands every variable to the range function and returns its error")
+			continue
+		}
 		r, ok := p.pos.(*ast.RangeStmt)
 		if !ok || p.name == "2-special-vars" {
 			continue
@@ -559,4 +580,62 @@ func c10PhaseSources(c *Check, a *Anchors) {
 		"Task.IncludedTaskfileVars is only recorded when `"+condOn+"`: for the other spelling of an include the tasks fall back on the merged global variables, where a sibling include that defines the same name wins")
 	c.Decide(okIncluded, "phase-sources", "IncludedTaskfileVars-source@"+fnDisplay(tk), tk.Decl.Pos(), "built from the included-Taskfile vars parameter", "Task.IncludedTaskfileVars is not built from the vars parameter of Tasks.Merge")
 	c.Decide(okStmt, "phase-sources", "IncludeVars-source@"+fnDisplay(tk), tk.Decl.Pos(), "Task.IncludeVars merged from include.Vars", "Task.IncludeVars is not merged from the include statement's Vars")
+}
+
+
+// rangingHelper: h(vars, fn) ranges over vars.All() (its first parameter), hands every (k, v) to its function parameter
+// unconditionally and returns that function's error as soon as it is non-nil.
+func rangingHelper(c *Check, h *FuncBody) bool {
+	info := h.Info()
+	if h.Type.Params == nil || h.Type.Params.NumFields() < 2 {
+		return false
+	}
+	var params []*types.Var
+	for _, fld := range h.Type.Params.List {
+		for _, id := range fld.Names {
+			if v, ok := info.Defs[id].(*types.Var); ok {
+				params = append(params, v)
+			}
+		}
+	}
+	if len(params) < 2 {
+		return false
+	}
+	ok := false
+	inspectBody(h.Body, func(nd ast.Node) bool {
+		r, isRange := nd.(*ast.RangeStmt)
+		if !isRange {
+			return true
+		}
+		call, isCall := ast.Unparen(r.X).(*ast.CallExpr)
+		if !isCall {
+			return true
+		}
+		sel, isSel := ast.Unparen(call.Fun).(*ast.SelectorExpr)
+		if !isSel || sel.Sel.Name != "All" || varOf(info, sel.X) != params[0] {
+			return true
+		}
+		for _, s := range r.Body.List {
+			inspectBody(s, func(m ast.Node) bool {
+				if fc, isFC := m.(*ast.CallExpr); isFC {
+					if v := varOf(info, fc.Fun); v != nil && v != params[0] {
+						isParam := false
+						for _, p := range params[1:] {
+							if p == v {
+								isParam = true
+							}
+						}
+						if isParam && len(fc.Args) == 2 && varOf(info, fc.Args[0]) == varOf(info, r.Key) && varOf(info, fc.Args[1]) == varOf(info, r.Value) &&
+							(unconditionalIn(r.Body.List, fc) || condOnlyErr(r.Body.List, fc)) {
+							ok = true
+						}
+					}
+				}
+				return true
+			})
+		}
+		return true
+	})
+	// every return inside the loop returns the error; the final return is nil
+	return ok
 }
